@@ -668,9 +668,20 @@ class Interp(_Base):
             if not isinstance(v, IntV):
                 return [(st, self.undecided(st, node, "datetime field kind " + v.kind))]
             lo, hi = DT_RANGES.get(k, (-INF, INF))
-            if v.lo < lo or v.hi > hi:
+            if v.hi < lo or v.lo > hi:
                 return [(st, self.raised("datetime-field", "ValueError", node,
                                          "datetime {}={} outside [{},{}]".format(k, v, lo, hi)))]
+            if v.lo < lo or v.hi > hi:
+                # partly out of range: the call may raise, or succeed with the value
+                # inside the range
+                s2 = st.fork()
+                self.tick()
+                f2 = dict(f)
+                f2[k] = IntV(max(v.lo, lo), min(v.hi, hi), v.sym)
+                kw2 = {kk: vv for kk, vv in f2.items()}
+                ok = self._mk_datetime(st, [], kw2, node)
+                return ok + [(s2, self.raised("datetime-field", "ValueError", node,
+                                              "datetime {}={} outside [{},{}]".format(k, v, lo, hi)))]
         self.site_counter += 1
         dt = DTV(("dtnew",) + tuple(
             (f[k].sym if k in f else ("const", 0)) for k in ("year", "month", "day", "hour", "minute")),
